@@ -197,7 +197,13 @@ func valText(pv *configapi.PathValue) string {
 }
 
 // NativeToStr renders a stored typed value as the token used in abstract states.
-func NativeToStr(v *configapi.TypedValue) string {
+func NativeToStr(v *configapi.TypedValue) (out string) {
+	defer func() {
+		// the renderer of the API package itself fails on some stored values (decimal64 precision >= 64)
+		if r := recover(); r != nil {
+			out = fmt.Sprintf("%s:<unprintable %x>", v.Type, v.Bytes)
+		}
+	}()
 	switch v.Type {
 	case configapi.ValueType_STRING:
 		return string(v.Bytes)
